@@ -88,7 +88,7 @@ struct Case {
     rerun: bool,
 }
 
-const NAME_STYLES: [&str; 4] = ["as-is", "two-dots", "blank-in-name", "non-ascii-name"];
+const NAME_STYLES: [&str; 7] = ["as-is", "two-dots", "blank-in-name", "non-ascii-name", "upper-case extension", "no extension", "leading dot"];
 const LINK_STYLES: [&str; 3] = ["regular files", "siblings are symlinks", "directory reached through a symlink"];
 
 fn arg_form_name(k: u64) -> &'static str {
@@ -115,6 +115,9 @@ fn styled_start(start: &str, name_style: u64) -> String {
         1 => format!("{stem}.v2.{ext}"),
         2 => format!("{stem} copy-1.{ext}"),
         3 => format!("{stem}-sch\u{e9}ma-\u{4e16}.{ext}"),
+        4 => format!("{stem}.{}", ext.to_uppercase()),
+        5 => stem,
+        6 => format!(".{stem}.{ext}"),
         _ => start.to_string(),
     }
 }
@@ -139,7 +142,7 @@ fn decode_case(ch: &mut Chooser, nsets: usize) -> Case {
     } else {
         None
     };
-    let name_style = ch.choose("name_style", 4);
+    let name_style = ch.choose_wide("name_style", 4, NAME_STYLES.len() as u64);
     let link_style = ch.choose("link_style", 3);
     let stderr_full = ch.choose("stderr_is_dev_full", 2) == 1;
     let rust_log = ch.choose("rust_log", 3);
@@ -836,6 +839,25 @@ fn build_tapes(sets: &[InputSet], tier: &str, seed: u64) -> (Vec<Vec<u64>>, Valu
             }
         }
     }
+    // (1b) start-file names that only enumerated cases use (upper-case extension, no extension, leading dot): the default
+    // output path is derived from the name, the sibling scan compares extensions and paths
+    let mut n_names = 0u64;
+    for input in 0..sets.len() {
+        if sets[input].name.starts_with("large-") && !thorough {
+            continue;
+        }
+        for name_style in 4..NAME_STYLES.len() as u64 {
+            for (k, (spelling, output)) in [(3u64, 0u64), (1, 0), (2, 2), (0, 3)].into_iter().enumerate() {
+                if !thorough && (input as u64 + name_style + k as u64) % 2 != 0 {
+                    continue;
+                }
+                let pre = [2u64, 1, 0, 7][(input + k) % 4];
+                let c = Case { input, spelling, output, pre, extra: [0u64, 1, 6][(input + k) % 3], longflags: false, arg_form: (name_style + k as u64) % 5, entropy: 0, dirperm: 0, fault: None, name_style, link_style: (input as u64 + name_style) % 3, stderr_full: false, rust_log: 0, tmpdir: k as u64 % 3, sib_style: (input as u64 + k as u64) % 2, rerun: k == 0, pwd_env: k as u64 % 3 };
+                tapes.push(encode_case(&c));
+                n_names += 1;
+            }
+        }
+    }
     // (2) a fault at every intercepted call index of a few small scenarios
     let idx_of = |name: &str| sets.iter().position(|s| s.name == name);
     let mut scen = Vec::new();
@@ -901,7 +923,7 @@ fn build_tapes(sets: &[InputSet], tier: &str, seed: u64) -> (Vec<Vec<u64>>, Valu
         }
         tapes.push(encode_case(&c));
     }
-    (tapes, json!({"configuration_product_cases": n_cfg, "configuration_dimensions": {"input_sets": sets.iter().map(|s| s.name.clone()).collect::<Vec<_>>(), "spellings": SPELLINGS, "outputs": OUTPUTS, "preexisting": PRE, "extra_entries": EXTRAS, "extra_entries_in_product": extras, "name_styles": NAME_STYLES, "link_styles": LINK_STYLES, "name_and_link_style_in_product": "varied by a fixed rule across the product; all combinations occur in the seeded mixes"}, "per_call_index_fault_enumeration": enumerated, "seeded_cases": n_seeded, "configuration_product_complete": thorough}))
+    (tapes, json!({"configuration_product_cases": n_cfg, "configuration_dimensions": {"input_sets": sets.iter().map(|s| s.name.clone()).collect::<Vec<_>>(), "spellings": SPELLINGS, "outputs": OUTPUTS, "preexisting": PRE, "extra_entries": EXTRAS, "extra_entries_in_product": extras, "name_styles": NAME_STYLES, "link_styles": LINK_STYLES, "name_and_link_style_in_product": "varied by a fixed rule across the product; all combinations occur in the seeded mixes"}, "enumerated_only_name_style_cases": n_names, "per_call_index_fault_enumeration": enumerated, "seeded_cases": n_seeded, "configuration_product_complete": thorough}))
 }
 
 fn main() {
